@@ -58,7 +58,8 @@ TRUSTED_BASE = [
     "guard:<op>:holds|fails) and 'guard holds, call raised, model changed' is reported as a broken correspondence",
 ]
 ASSUMPTIONS = [
-    "single-threaded use; NetworkX backend (the API's default); names are ASCII",
+    "single-threaded use; both in-memory NetworkX backends (the API's default shared store and, for half of the random histories and the "
+    "systematic cases of one flavour per tier-half, the one-graph-per-model store of NetworkXGraphImporterDisjoint); names are ASCII",
     "atomic_op covers all 22 request kinds of the first alphabet, atomic_xop all 6 of the second (add_child_interface, "
     "remove_child_interface, peer, unpeer, add_port_mirror_service, add_component(model_type=)) and atomic_yop the third (update_labels / "
     "update_capacities) under explicit decidable hypotheses; history_erasure / history_atomic lift them to every history over the three "
@@ -76,7 +77,9 @@ RULE = ("histories of building calls of the three alphabets (both flavours, call
         "interface bogus/stale/connected/repeated/shared-on-L2PTP (top-level and node-owned services), one bad keyword among good ones at each "
         "position, None / '' / wrong-typed values, duplicate names/ids, unknown model, stale parents, id collisions of derived ids, "
         "nslabels / portlabels / portcapacities / missing service type of the composites, bad field among good ones in update_labels / "
-        "update_capacities, attribute assignment, removal by the wrong call on elements with connected (sub-)interfaces, states with two "
+        "update_capacities, attribute assignment, names / ids of the model (any class, derived ones included) as the argument of creating calls, "
+        "rename, set_property / set_properties(name=), `element.name = ...` and unset on every kind of element (compared whenever the call "
+        "raises, whether or not the unchanged code raises there), removal by the wrong call on elements with connected (sub-)interfaces, states with two "
         "ServicePort peers; non-trivial = the failing call comes after >= 1 successful mutation of the history and, for list arguments, "
         "after >= 1 good element; distinct by op kind x fault x position x outcome kind")
 
@@ -137,7 +140,8 @@ def run_history(flavour, ops_or_gen, on_step=None, nmax=None):
             ca = caches()
             T.after_success(sess, op, outcome)
             hist.append(op)
-            st = dict(op=op, line=line, outcome=outcome, before=before, after=after, cache_before=cb, cache_after=ca, history=list(hist))
+            st = dict(op=op, line=line, outcome=outcome, before=before, after=after, cache_before=cb, cache_after=ca, history=list(hist),
+                      flavour=flavour)
             steps.append(st)
             if on_step:
                 on_step(sess, st)
@@ -174,15 +178,21 @@ def check_step(st, res, case):
     return True
 
 
+def stream_flavour(i):
+    """flavour of the i-th random history: substrate every third, and about half of each on the one-graph-per-model store ('+d')"""
+    return ("exp" if i % 3 else "sub") + ("+d" if i % 2 == 1 else "")
+
+
 def random_history(ctx, tag, flavour, n, fault, ext=False):
     rng = ctx.sub_rng(tag)
     names = T.Names(rng)
-    return run_history(flavour, lambda sess: X.gen_op_x(rng, sess, names, fault, ext=ext), nmax=n)
+    # caller-supplied names / ids of every creating and renaming call drawn from the names / ids the model holds (any class)
+    return run_history(flavour, lambda sess: T.collide(rng, sess, X.gen_op_x(rng, sess, names, fault, ext=ext), p_name=0.3, p_id=0.05), nmax=n)
 
 
 def base_ops(flavour):
     """a small reachable topology with free interfaces, one connected service, one switch"""
-    sub = flavour == "sub"
+    sub = flavour.startswith("sub")
     I = (lambda s: s) if sub else (lambda s: None)
     ops = [
         {"op": "add_node", "name": "n1", "nid": I("n1id"), "site": "RENC", "ntype": "Server" if sub else "VM", "kw": []},
@@ -200,7 +210,7 @@ def base_ops(flavour):
 def systematic_cases(flavour):
     """Failing calls with the rejected argument at every position, on top of base_ops. Yields (tag, ops)."""
     base = base_ops(flavour)
-    sub = flavour == "sub"
+    sub = flavour.startswith("sub")
     good = ["h3", "h6", "h4", "h7"]
     nid = (lambda s: s) if sub else (lambda s: None)
     out = []
@@ -266,6 +276,7 @@ def systematic_cases(flavour):
             {"op": "add_link", "name": "lx", "nid": "lxid", "ltype": "Patch", "ifs": ["h3", "h6"], "kw": []}]))
     out += extension_cases(flavour, base)
     out += c09_cases(flavour, base)
+    out += collision_cases(flavour, base)
     # bad keyword at every position among good ones, for every creating call
     g = {"node": T.GOOD_KW["node"][:2], "comp": T.GOOD_KW["comp"][:2], "svc": T.GOOD_KW["svc"][:2], "iface": T.GOOD_KW["iface"][:2],
          "link": T.GOOD_KW["link"][:2]}
@@ -346,11 +357,45 @@ def systematic_cases(flavour):
     return out
 
 
+def collision_cases(flavour, base):
+    """every call that writes a name (rename, set_property / set_properties(name=), `element.name = ...`, unset) with the name of
+    another element of the same class (sibling in the same scope, and same class elsewhere) and of another class, on every kind
+    of element.  The unchanged code accepts most of them (C07 lists the missing guards); whenever one raises - whatever the
+    reason - the model must be what it was.  One call per history (an accepted one leaves same-named elements behind)."""
+    sub = flavour.startswith("sub")
+    I = (lambda s: s) if sub else (lambda s: None)
+    svc = (lambda n, p, ifs: {"op": "node_add_service", "parent": p, "name": n, "nid": n + "id", "nstype": "OVS", "kw": []}) if sub else \
+        (lambda n, p, ifs: {"op": "add_service", "name": n, "nstype": "L2Bridge", "ifs": ifs, "kw": []})
+    pre = base + [
+        svc("s1", "h0", ["h3"]),                                                                                      # h10
+        svc("s2", "h1", []),                                                                                          # h11
+        {"op": "add_link", "name": "l1", "nid": I("l1id"), "ltype": "L2Path", "ifs": ["h4", "h6"], "kw": []},         # h12
+        {"op": "add_link", "name": "l2", "nid": I("l2id"), "ltype": "L2Path", "ifs": ["h7", "h9"], "kw": []},         # h13
+        {"op": "ns_add_interface", "svc": "h10", "name": "ia", "nid": I("iaid"), "itype": "TrunkPort", "kw": []},     # h14
+        {"op": "ns_add_interface", "svc": "h10", "name": "ib", "nid": I("ibid"), "itype": "TrunkPort", "kw": []},     # h15
+    ]
+    # handle -> (kind, [sibling / same-class name, name of another class])
+    targets = {"node": ("h1", ["n1", "nic1"]), "link": ("h13", ["l1", "n1"]), "comp-sibling": ("h8", ["nic1", "n1"]),
+               "comp-elsewhere": ("h5", ["nic1", "s1"]), "svc": ("h11", ["s1", "n1-nic1-l2ovs" if not sub else "l1"]),
+               "iface": ("h15", ["ia", "l1"])}
+    out = []
+    for kind, (h, taken) in targets.items():
+        for j, nm in enumerate(taken):
+            w = "%s/%s" % (kind, "same-class" if j == 0 else "other-class")
+            out.append(("collide/rename/" + w, pre + [{"op": "rename", "h": h, "name": nm}]))
+            out.append(("oracle-only/collide/set_property-name/" + w, pre + [{"op": "set_props", "h": h, "kw": [["name", ["str", nm]]]}]))
+            out.append(("oracle-only/collide/set_properties-name/" + w, pre + [
+                {"op": "set_props", "h": h, "single": False, "kw": [["details", ["str", "d"]], ["name", ["str", nm]]]}]))
+            out.append(("oracle-only/collide/attr-name/" + w, pre + [{"op": "set_attr", "h": h, "attr": "name", "val": ["str", nm]}]))
+        out.append(("collide/unset-name/" + kind, pre + [{"op": "unset_prop", "h": h, "pname": "name"}]))
+    return out
+
+
 def extension_cases(flavour, base):
     """the second alphabet: sub-interfaces, peer/unpeer, port mirror, model_type= components"""
     out = []
     lab = lambda v: ["labels", ["lab", {"vlan": v}]]
-    if flavour == "sub":
+    if flavour.startswith("sub"):
         pre = base
         out.append(("add_child_interface/sub/ok+dup-id", pre + [
             {"op": "add_child_interface", "port": "h3", "name": "sub1", "nid": "sub1id", "kw": [lab("101")]},
@@ -484,7 +529,7 @@ def c09_cases(flavour, base):
     interfaces, update_labels / update_capacities, attribute assignment, removals by the wrong call, and the states in which
     an interface has two ServicePort peers"""
     out = []
-    sub = flavour == "sub"
+    sub = flavour.startswith("sub")
     nid = (lambda s: s) if sub else (lambda s: None)
     lab = lambda d: ["lab", d]
     sw = {"op": "add_switch", "name": "swx", "nid": nid("swxid"), "site": "RENC", "nports": 2}
@@ -735,7 +780,7 @@ def compare_with_model(steps_by_history, res):
             if "snap" in d:
                 a, r, ea, er = T.snap_diff(model["snap"] or {"nodes": [], "edges": []}, impl["snap"])
                 d["snap"] = {"impl_only_nodes": a, "model_only_nodes": r, "impl_only_edges": ea, "model_only_edges": er}
-            res.disagreements.append({"case": {"history": ix[0], "step": ix[1], "line": st["line"],
+            res.disagreements.append({"case": {"history": ix[0], "step": ix[1], "line": st["line"], "flavour": st.get("flavour"),
                                                "ops": st["history"]},
                                       "impl": d, "model": "see impl"})
         if nontrivial(steps_by_history[ix[0]], ix[1]):
@@ -760,13 +805,13 @@ def correspondence(ctx, res):
     hs = []
     for name, fl, ops in corpus_cases():
         hs.append(run_history(fl, ops))
-    for fl in ("exp", "sub"):
+    for fl in ctx.scale(("exp+d", "sub"), ("exp", "sub", "exp+d", "sub+d")):
         for tag, ops in systematic_cases(fl):
             if not tag.startswith("oracle-only/"):
                 hs.append(run_history(fl, ops))
     n = ctx.scale(36, 230)
     for i in range(n):
-        fl = "exp" if i % 3 else "sub"
+        fl = stream_flavour(i)
         hs.append(random_history(ctx, "corr/%d" % i, fl, ctx.scale(25, 40), 0.3, ext=(i % 2 == 1)))
     compare_with_model(hs, res)
     for h in hs[-2:]:
@@ -788,18 +833,21 @@ def oracle(ctx, res, budget=None):
             check_step(st, res, {"flavour": fl, "ops": steps[i]["history"], "label": label})
     for name, fl, ops in corpus_cases():
         run_case("corpus:" + name, fl, ops)
-    for fl in ("exp", "sub"):
+    for fl in ctx.scale(("exp", "sub+d"), ("exp", "sub", "exp+d", "sub+d")):       # correspondence() runs the other two in the quick tier
         for tag, ops in systematic_cases(fl):
             run_case(tag, fl, ops)
     n = budget or ctx.scale(50, 350)
     for i in range(n):
-        fl = "exp" if i % 3 else "sub"
+        fl = stream_flavour(i)
         rng = ctx.sub_rng("oracle/%d" % i)
         names = T.Names(rng)
         sess_ops = []
 
         def gen(sess):
-            op = X.gen_op_x(rng, sess, names, 0.45, ext=(i % 2 == 1), oracle_only=True)
+            op = X.gen_op_x(rng, sess, names, 0.45, ext=(i % 4 in (1, 2)), oracle_only=True)
+            # the snapshot is taken before EVERY call: names / ids that collide with what the model holds go into creating calls,
+            # rename, set_property / set_properties(name=) and the attribute assignment `element.name = ...`
+            op = T.collide(rng, sess, op, p_name=0.35, p_id=0.06, set_name=True)
             sess_ops.append(op)
             return op
         steps = run_history(fl, gen, nmax=ctx.scale(25, 40))
@@ -809,6 +857,9 @@ def oracle(ctx, res, budget=None):
                 res.count("failing:" + st["op"]["op"] + ":" + st["outcome"][1])
                 if nontrivial(steps, j):
                     res.nontrivial.add(canon([st["op"]["op"], st["op"].get("fault"), st["outcome"][1]]))
+            res.count("backend:" + ("disjoint" if fl.endswith("+d") else "shared"))
+            if "collide" in st["op"]:
+                res.count("collide:%s:%s:%s" % (st["op"]["collide"], st["op"]["op"], "ok" if st["outcome"][0] == "ok" else st["outcome"][1]))
             check_step(st, res, {"flavour": fl, "ops": steps[j]["history"], "label": "random"})
     res.sample({"oracle": "snapshot(before) == snapshot(after) and cache unchanged for every raising call", "histograms": dict(list(res.hist.items())[:8])})
 
@@ -824,6 +875,7 @@ def search(ctx, res, broken):
             if not ops:
                 continue
             fl = "sub" if (case.get("line") or {}).get("fl") == "sub" else "exp"
+            fl = case.get("flavour") or fl
             try:
                 steps = run_history(fl, ops)
             except Exception:
